@@ -531,7 +531,8 @@ pub mod value {
                     write!(f, "\"")
                 }
                 Vec(vs) => {
-                    if let Some(Nat8(_)) = vs.first() {
+                    // the text parser does not require the elements of `vec { .. }` to agree
+                    if !vs.is_empty() && vs.iter().all(|v| matches!(v, Nat8(_))) {
                         write!(f, "blob \"")?;
                         for v in vs.iter() {
                             match v {
